@@ -97,6 +97,26 @@ Theorem c20_documented_aliases_accepted : forall t a,
 Proof. exact documented_accepted. Qed.
 Print Assumptions c20_documented_aliases_accepted.
 
+(* alias -> variant partition: the aliases that switch a block to its variant (-DipSourceMatNoAdapt, -DSMNA, -dsmna: no
+   adaptive integration) are disjoint from the option names the help text documents, so every documented alias (-dsm
+   included) runs the documented computation: its variant bit is false on every command line *)
+Theorem c20_alias_variant_partition : forall t b a,
+  In t gen_tools -> In b (t_blocks t) -> In a (t_documented t) -> ~ In a (b_variant b).
+Proof. exact alias_variant_partition. Qed.
+Print Assumptions c20_alias_variant_partition.
+
+Theorem c20_documented_alias_default_variant : forall t b a pre post,
+  In t gen_tools -> In b (t_blocks t) -> In a (t_documented t) ->
+  variant_of (pre ++ a :: post) b (List.length pre) = false.
+Proof. exact documented_alias_default_variant. Qed.
+Print Assumptions c20_documented_alias_default_variant.
+
+Example c20_ex_dsm_variants :
+  map (fun a => map e_variant (r_execs (run_tool tool_om_assemble (cmdline ["om_assemble"; a; "g"; "c"; "d"; "o"]%string))))
+      ["-DipSourceMat"; "-DSM"; "-dsm"; "-DipSourceMatNoAdapt"; "-DSMNA"; "-dsmna"]%string
+  = [[false]; [false]; [false]; [true]; [true]; [true]].
+Proof. vm_compute. reflexivity. Qed.
+
 (* ---- invalid and incomplete command lines ---- *)
 (* an option given with fewer than its mandatory parameters: status 1 *)
 Theorem c20_incomplete_rejected : forall t b a argv i,
